@@ -124,6 +124,41 @@ fn remove_db(path: &PathBuf) {
     }
 }
 
+/// The same backend, reached through the public `SessionStore` wrapper (whatever the wrapper adds or short-cuts is then part
+/// of what the histories observe).
+struct ViaSessionStore(pavex_session::SessionStore);
+
+impl std::fmt::Debug for ViaSessionStore {
+    fn fmt(&self, f: &mut std::fmt::Formatter<'_>) -> std::fmt::Result {
+        f.write_str("ViaSessionStore")
+    }
+}
+
+#[async_trait::async_trait]
+impl SessionStorageBackend for ViaSessionStore {
+    async fn create(&self, id: &pavex_session::SessionId, record: pavex_session::store::SessionRecordRef<'_>) -> Result<(), pavex_session::store::errors::CreateError> {
+        self.0.create(id, record).await
+    }
+    async fn update(&self, id: &pavex_session::SessionId, record: pavex_session::store::SessionRecordRef<'_>) -> Result<(), pavex_session::store::errors::UpdateError> {
+        self.0.update(id, record).await
+    }
+    async fn update_ttl(&self, id: &pavex_session::SessionId, ttl: std::time::Duration) -> Result<(), pavex_session::store::errors::UpdateTtlError> {
+        self.0.update_ttl(id, ttl).await
+    }
+    async fn load(&self, id: &pavex_session::SessionId) -> Result<Option<pavex_session::store::SessionRecord>, pavex_session::store::errors::LoadError> {
+        self.0.load(id).await
+    }
+    async fn delete(&self, id: &pavex_session::SessionId) -> Result<(), pavex_session::store::errors::DeleteError> {
+        self.0.delete(id).await
+    }
+    async fn change_id(&self, old_id: &pavex_session::SessionId, new_id: &pavex_session::SessionId) -> Result<(), pavex_session::store::errors::ChangeIdError> {
+        self.0.change_id(old_id, new_id).await
+    }
+    async fn delete_expired(&self, batch_size: Option<std::num::NonZeroUsize>) -> Result<usize, pavex_session::store::errors::DeleteExpiredError> {
+        self.0.delete_expired(batch_size).await
+    }
+}
+
 async fn new_seq_run(hseed: u64, sqlite: bool, aged: bool, stats: &mut Stats) -> Option<SeqRun> {
     let plan = seq_plan(hseed, aged);
     if sqlite {
@@ -135,7 +170,12 @@ async fn new_seq_run(hseed: u64, sqlite: bool, aged: bool, stats: &mut Stats) ->
             }
         }
     } else {
-        Some(SeqRun::new(plan, Arc::new(InMemorySessionStore::new()), "memory", "plain", None))
+        // every other in-memory history talks to the backend through `pavex_session::SessionStore`, the wrapper applications use
+        if hseed & 1 == 1 {
+            Some(SeqRun::new(plan, Arc::new(ViaSessionStore(pavex_session::SessionStore::new(InMemorySessionStore::new()))), "memory", "plain", None))
+        } else {
+            Some(SeqRun::new(plan, Arc::new(InMemorySessionStore::new()), "memory", "plain", None))
+        }
     }
 }
 
